@@ -89,8 +89,11 @@ def correspondence(ctx, out, desc, im):
     ipot, iel = gs.impl_rows(ssm, pots, ids)
     for e in m['pot']:
         for key in ('c', 'd'):
-            if not gs.vec_agree(ipot[e['n']][key], e[key]):
-                out.disagree(f'ss_model.{key}_row_for_potential', inp, ipot[e['n']][key].tolist(), e[key], node=e['n'])
+            a, b = ipot[e['n']][key], e[key]
+            if ('err' in a) != ('err' in b) or ('err' in a and a['err'] != b['err']) or \
+               ('ok' in a and not gs.vec_agree(a['ok'], b['ok'])):
+                out.disagree(f'ss_model.{key}_row_for_potential', inp,
+                             {k: (v.tolist() if hasattr(v, 'tolist') else v) for k, v in a.items()}, b, node=e['n'])
                 return m
     for e in m['el']:
         for key, name in (('vc', 'c_row_voltage'), ('vd', 'd_row_voltage'), ('ic', 'c_row_current'), ('id_', 'd_row_current')):
@@ -169,7 +172,21 @@ def oracle(ctx, out, desc, im) -> bool:
     if cnd > 1e6:
         out.skip('ill_conditioned'); return True
     labels, ids = gs.labels_of(desc), [c['id'] for c in comps]
-    ipot, iel = gs.impl_rows(ssm, labels, ids)
+    ipot, iel = gs.impl_rows(ssm, labels + [UNKNOWN_NODE], ids)
+    # a node of the circuit always has a row (zero row for the reference); an unknown id raises
+    for n in labels:
+        for key in ('c', 'd'):
+            if 'err' in ipot[n][key]:
+                out.spec_fail(canon(desc, 'raises', exc=ipot[n][key]['err']), f'output row {key} of node {n!r} raises', inp, desc=desc)
+                return False
+    if not (np.all(ipot[desc['ground']]['c']['ok'] == 0) and np.all(ipot[desc['ground']]['d']['ok'] == 0)):
+        out.spec_fail(canon(desc, 'reference_row'), 'output row of the reference node is not zero', inp, desc=desc); return False
+    if 'ok' in ipot[UNKNOWN_NODE]['c'] or 'ok' in ipot[UNKNOWN_NODE]['d']:
+        out.spec_fail(dict(op='state_space', symptom='unknown_query_no_error', what='potential_row'),
+                      f'c_row_for_potential / d_row_for_potential answer a query for the unknown node {UNKNOWN_NODE!r} '
+                      f'({ipot[UNKNOWN_NODE]["c"].get("ok")}) instead of raising', inp, desc=desc)
+        return False
+    ipot = {n: dict(c=ipot[n]['c']['ok'], d=ipot[n]['d']['ok']) for n in labels}
     for i in ids:
         for key in ('vc', 'vd', 'ic', 'id_'):
             if 'err' in iel[i][key]:
